@@ -32,6 +32,11 @@ ALLOCS = {
 }
 ARITH_OPS = {"std::ops::Add::add": "op_add", "std::ops::Sub::sub": "op_sub"}
 
+# callee names in the facts are generic-stripped (`core::slice::<impl [T]>::len` -> `core::slice::len`)
+from .facts import strip_generics as _sg     # noqa: E402
+PANICKY_STD = {_sg(k): v for k, v in PANICKY_STD.items()}
+ALLOCS = {_sg(k): v for k, v in ALLOCS.items()}
+
 
 def sites(body, overflow=False):
     """Yield dicts {kind, callee, bb, line, macro} for panic-capable sites of `body` (cleanup blocks excluded)."""
